@@ -234,8 +234,11 @@ def r2(ctx, r):
     fb = ctx.fb()
     pv, pa, po, ps = jp(ctx, "_parseValue"), jp(ctx, "_parseArray"), jp(ctx, "_parseObject"), jp(ctx, "_parseString")
     # recursion: depth test dominates the container calls; every cycle increments depth
-    chk = [b for b in pv.blocks.values() if b.cond is not None and common.cmp_parts(b.cond) and common.cmp_parts(b.cond)[0] in (">", ">=")
-           and show(strip_casts(common.cmp_parts(b.cond)[1])) == "depth" and "depthMax" in show(common.cmp_parts(b.cond)[2])]
+    def limit_test(b, what, limit):
+        """operator of `what OP _limits.limit` in block b's condition, whichever way round it is written"""
+        co = common.cmp_oriented(b.cond, lambda x: limit in show(x)) if b.cond is not None else None
+        return co[0] if co and show(strip_casts(co[1])) == what else None
+    chk = [b for b in pv.blocks.values() if limit_test(b, "depth", "depthMax") in (">", ">=")]
     r.instance()
     if not r.expect(len(chk) == 1, pv, None, "depth test", "_parseValue no longer compares `depth` with _limits.depthMax", okdesc="_parseValue: depth > depthMax test present"):
         return
@@ -285,12 +288,12 @@ def r2(ctx, r):
                 apps.append(e)
             if n.get("k") == "opcall" and n.get("op") == "[]" and strip_casts(n["args"][0]).get("n") == var:
                 apps.append(e)
-        cbs = [b for b in g.blocks.values() if b.cond is not None and common.cmp_parts(b.cond) and show(strip_casts(common.cmp_parts(b.cond)[1])) == var + ".size()" and limit in show(common.cmp_parts(b.cond)[2])]
+        cbs = [b for b in g.blocks.values() if limit_test(b, var + ".size()", limit)]
         if not apps:
             raise AnalysisBroken("%s: no growth site of `%s` found" % (last(g.name), var))
         for e in apps:
             r.instance()
-            ok = len(cbs) == 1 and common.cmp_parts(cbs[0].cond)[0] in (">=", ">") and dominated_by_edge(g, e, cbs[0], 1, eh=False) and _loop_guard_path(g, e, cbs[0]) is None
+            ok = len(cbs) == 1 and limit_test(cbs[0], var + ".size()", limit) in (">=", ">") and dominated_by_edge(g, e, cbs[0], 1, eh=False) and _loop_guard_path(g, e, cbs[0]) is None
             r.expect(ok, g, e, "growth before limit: %s" % var, "%s grows `%s` on a path (or loop iteration) that does not pass the false edge of `%s.size() >= _limits.%s`" % (last(g.name), var, var, limit),
                      okdesc="%s: %s grows only behind the %s test" % (last(g.name), var, limit))
     # duplicate keys: the later member replaces the earlier one (what RFC 8259 leaves open, every common decoder — and the
@@ -329,7 +332,7 @@ def r2(ctx, r):
     apps = [e for e in ps.stmts() if (e.node.get("k") == "opcall" and e.node.get("op") == "+=" and strip_casts(e.node["args"][0]).get("n") == "str")
             or (e.node.get("k") in ("call", "mcall") and any(strip_casts(a).get("n") == "str" and "&" in (strip_casts(a).get("t") or "&") for a in e.node.get("args", [])) and last(e.node.get("callee", "")) not in ("move", "Json"))
             or (e.node.get("k") == "mcall" and strip_casts(e.node.get("obj") or {}).get("n") == "str" and last(e.node.get("callee", "")) in ("push_back", "append", "insert"))]
-    cbs = [b for b in ps.blocks.values() if b.cond is not None and common.cmp_parts(b.cond) and show(strip_casts(common.cmp_parts(b.cond)[1])) == "str.size()" and "stringLengthMax" in show(common.cmp_parts(b.cond)[2])]
+    cbs = [b for b in ps.blocks.values() if limit_test(b, "str.size()", "stringLengthMax") in (">", ">=")]
     if len(apps) < 9:
         raise AnalysisBroken("_parseString: only %d appends to `str` found (floor 9)" % len(apps))
     for e in apps:
